@@ -36,7 +36,8 @@ def decoder_cases():
                         L.append(("dec %s P%d:%d+05 rbs#,%s,pk" % (kind, n - 1 if n > 0 else 0, k, "ru"), [None, "5", "E:end"]))
     # an item head with a 1/2/4/8-byte argument placed so that it straddles a window multiple, the input ending inside the
     # argument (before or after the refill): every major type's reader, skip, and peek followed by a read
-    readers = {0: ["ru", "ri", "sk"], 1: ["rn", "ri", "sk"], 2: ["rbs", "sk"], 3: ["rts", "sk"], 4: ["ras", "sk"], 5: ["rms", "sk"], 6: ["sk"]}
+    readers = {0: ["ru", "ri", "sk"], 1: ["rn", "ri", "sk"], 2: ["rbs", "sk"], 3: ["rts", "sk"], 4: ["ras", "sk"], 5: ["rms", "sk"], 6: ["sk"],
+               7: ["sk"]}        # (major type 7: one-byte simple values and floats of 2, 4 and 8 bytes, skipped)
     for k in (1, 2):
         for j in range(0, 10):
             start = WIN * k - j                   # offset of the item head
